@@ -53,7 +53,12 @@ def gen(tier, seed):
             undo.append([mids[0], mids[-1]])
         for nodes in (undo if tier != "quick" else rnd.sample(undo, min(2, len(undo)))):
             tol = rnd.choice(["default", "default", "none" if p >= 1 else "default", fs(F(1, 10 ** 6))])
-            cases.append(dict(base, k="undo", nodes=fsl(nodes), tol=tol))
+            b2 = base
+            if rnd.random() < 0.3:
+                # coordinates of size 1e6 .. 1e7: an exactly removable knot has error exactly 0, whatever the magnitude
+                big = rnd.choice((10 ** 6, 3 * 10 ** 6 + 1, 10 ** 7))
+                b2 = dict(base, P=pts_json([[x * big for x in pt] for pt in rand_points(rnd, n, dim)]), kind=v["kind"] + "-large")
+            cases.append(dict(b2, k="undo", nodes=fsl(nodes), tol=tol))
         # generic control points: removal of existing knots
         for y in inner[:2]:
             cnt = U.count(y)
